@@ -18,6 +18,16 @@ func runTreeViaMiddleware(pats, probes []string) SL {
 	if err != nil {
 		return nil
 	}
+	// the same list with credentialed access and with private-network access (when such a configuration is acceptable
+	// without the insecure-origins tolerance): the verdicts must be the same ones
+	var alts []*cors.Middleware
+	for _, c := range []cors.Config{
+		{Origins: pats, Credentialed: true, ExtraConfig: cors.ExtraConfig{DangerouslyTolerateSubdomainsOfPublicSuffixes: true}},
+		{Origins: pats, ExtraConfig: cors.ExtraConfig{DangerouslyTolerateSubdomainsOfPublicSuffixes: true, PrivateNetworkAccess: true}}} {
+		if am, aerr := cors.NewMiddleware(c); aerr == nil {
+			alts = append(alts, am)
+		}
+	}
 	res := make(SL, len(probes))
 	_ = m.Config() // a read in between must not matter
 	for i, o := range probes {
@@ -30,6 +40,12 @@ func runTreeViaMiddleware(pats, probes []string) SL {
 		out := serveOnce(m, reqT{method: "GET", hdrs: hd}, http.Header{})
 		v := out.hdrs["Access-Control-Allow-Origin"]
 		res[i] = Bool(len(v) == 1 && v[0] == o)
+		for _, am := range alts {
+			av := serveOnce(am, reqT{method: "GET", hdrs: http.Header{"Origin": {o}}}, http.Header{}).hdrs["Access-Control-Allow-Origin"]
+			if (len(av) == 1 && av[0] == o) != (len(v) == 1 && v[0] == o) {
+				res[i] = Y("differs-with-credentials-or-pna")
+			}
+		}
 	}
 	return res
 }
